@@ -71,3 +71,49 @@ pub fn key_snd(p: &(I, I)) -> &I { &p.1 }
 
 // ---- partition (predicate name from the filter vocabulary; port 0 = true, port 1 = false)
 pub fn part<T>(pred: fn(&T) -> bool) -> impl Fn(&T, usize) -> usize { move |x, _n| if pred(x) { 0 } else { 1 } }
+
+// ---- lattice wrappers (identities in the model)
+pub type MaxU = dfir_rs::lattices::Max<u64>;
+pub type MinU = dfir_rs::lattices::Min<u64>;
+pub type SetI = dfir_rs::lattices::set_union::SetUnionHashSet<I>;
+pub fn to_max(x: I) -> MaxU { MaxU::new(x as u64) }
+pub fn from_max(m: MaxU) -> I { m.into_reveal() as I }
+pub fn kv_to_max(p: (I, I)) -> (I, MaxU) { (p.0, MaxU::new(p.1 as u64)) }
+pub fn kv_to_min(p: (I, I)) -> (I, MinU) { (p.0, MinU::new(p.1 as u64)) }
+/// state_by mapping: item -> singleton set
+pub fn single(x: I) -> dfir_rs::lattices::set_union::SetUnionSingletonSet<I> {
+    dfir_rs::lattices::set_union::SetUnionSingletonSet::new_from(x)
+}
+pub fn set_sorted(s: SetI) -> Vec<I> {
+    let mut v: Vec<I> = s.into_reveal().into_iter().collect();
+    v.sort();
+    v
+}
+
+// ---- zip_longest: Both(a,b) -> (0,(a,b)), Left(a) -> (1,(a,-1)), Right(b) -> (2,(-1,b))
+pub fn eob(e: dfir_rs::itertools::EitherOrBoth<I, I>) -> (I, (I, I)) {
+    use dfir_rs::itertools::EitherOrBoth::*;
+    match e {
+        Both(a, b) => (0, (a, b)),
+        Left(a) => (1, (a, -1)),
+        Right(b) => (2, (-1, b)),
+    }
+}
+
+// ---- demux_enum
+#[derive(dfir_rs::DemuxEnum)]
+pub enum Cls {
+    Even(I),
+    Odd(I),
+}
+pub fn classify(x: I) -> Cls { if x.rem_euclid(2) == 0 { Cls::Even(x) } else { Cls::Odd(x) } }
+pub fn untup<T>(t: (T,)) -> T { t.0 }
+
+// ---- lattice_bimorphism (cartesian product of set unions) / resolve_futures
+pub type SingleI = dfir_rs::lattices::set_union::SetUnionSingletonSet<I>;
+pub fn pairs_sorted(s: dfir_rs::lattices::set_union::SetUnionHashSet<(I, I)>) -> Vec<(I, I)> {
+    let mut v: Vec<(I, I)> = s.into_reveal().into_iter().collect();
+    v.sort();
+    v
+}
+pub fn ready_fut(x: I) -> std::future::Ready<I> { std::future::ready(x) }
